@@ -18,7 +18,7 @@ STRUCTS = ["DA", "DS", "LIST", "LIST12", "2s", "MI", "NaN"]
 ATTR_SETS = {
     "plain": {"units": "K", "long_name": "temperature"},
     "empty": {"units": "", "comment": ""},
-    "brackets": {"units": "[m/s]", "note": "{a}", "x": "[unclosed", "y": "(1, 2)"},
+    "brackets": {"units": "[m/s]", "note": "{a}", "x": "[unclosed", "y": "(1, 2)", "u2": "[m s-1]", "rng": "{0 deg .. 360 deg}", "q": "[1, 2"},
     "lookalike": {"flag": "True", "missing": "None", "levels": "[1, 2]", "d": "{'a': 1}"},
     "quotes": {"title": "it's \"quoted\"", "u": "µm · s⁻¹", "nl": "two\nlines"},
     "typed": {"valid_range": [-90.0, 90.0], "bounds": None, "flag": True, "meta": {"a": 1, "b": [1, 2]}, "n": 3, "f": 2.5},
@@ -228,6 +228,19 @@ def run_model(case):
     rot = {"n_modes": 2, "power": 1} if "Rotator" in zc else None
     try:
         m, base = zoo.fit(zc, data, dim, cfg, rot_cfg=rot)
+        if "Rotator" in zc:
+            # a rotator whose modes had to be RE-ORDERED after the rotation is the non-trivial object to store and rebuild: look
+            # for one among a few data sets derived from the same seed (more modes, oblique rotation)
+            for t in range(1, 7):
+                if list(np.asarray(m.data["idx_modes_sorted"].values)) != list(range(int(m.data["idx_modes_sorted"].size))):
+                    break
+                try:
+                    d2, dim2 = build(dict(case, mseed=case["mseed"] + 101 * t))
+                    c2 = dict(cfg, n_modes=4)
+                    m2_, b2_ = zoo.fit(zc, d2, dim2, c2, rot_cfg={"n_modes": 3 + (t % 2), "power": 1 + (t % 2)})
+                    m, base, data, dim, cfg = m2_, b2_, d2, dim2, c2
+                except (RuntimeError, ValueError):
+                    continue
     except RuntimeError as e:
         if "did not converge" in str(e):
             return {"findings": [], "info": {}}
